@@ -16,8 +16,10 @@ RULE = ("XAP: small real ZIPs from the harness-owned raw writer (0-3 members, st
         "wrap, TrailerSize beyond the start of the file, foreign signature, explicit sizes 0..23, len±1..11, negative, int64 extremes. Ops: "
         "digest / sign (real DigestXapTar, XapDigest.Sign: imprint, PatchStart, PatchLen, patch bytes), roundtrip (signer module: "
         "transform, sign, apply, then Verify on the output through a ReaderAt that records which ranges the real code reads: blob "
-        "location and hashed range are observed, not recomputed), history (2-4 signing rounds at the level of lib/signxap + the "
-        "transform's verdict on relic's own output), verify, mutate (C02: every byte of the EOCD, header, trailer, blob edges plus seeded "
+        "location and hashed range are observed, not recomputed), history (2-4 signing rounds through the signer module, each on the "
+        "output of the one before, also starting from inputs that already end in one or two foreign frames; imprint of every round, "
+        "equality with signing the original once, the transform's verdict on the result), frame (SignatureFrameSize through "
+        "removeSignature), verify, mutate (C02: every byte of the EOCD, header, trailer, blob edges plus seeded "
         "positions of really signed files against the real Verify). Non-trivial = distinct op on which the model gets past the first read.")
 TRUSTED = ["Relic.Model.Xap is hand-written from lib/signxap/{sign,verify,structs}.go, lib/zipslicer/tarzip.go and signers/{xap,zipbased}; "
            "tied by differential execution; FindDirectory is Relic.Zip.findDirectory (tied under C17)",
@@ -26,8 +28,8 @@ TRUSTED = ["Relic.Model.Xap is hand-written from lib/signxap/{sign,verify,struct
            "imprint (computed by the generator with the real signer); SHA-256 of the model's byte streams is computed by this check"]
 ASSUMPTIONS = ["XAP: files and sizes below 2^63 bytes in the sign-then-verify theorems (int64 wrap-around is modelled and exercised, "
                "the theorems about signed files assume it does not occur); |s| + 8 < 2^32 for the PKCS#7 blob",
-               "XAP: the theorems about re-signing are about lib/signxap's functions on the framing ZipToTar would deliver; the transform "
-               "itself refuses relic-signed files (F10)"]
+               "XAP: module-level re-signing theorems (xap_resign_module, xap_history_module) assume the directory offset FindDirectory "
+               "answers lies inside the ZIP part; crafted offsets are exercised by the correspondence only"]
 
 N_UNPROT = 6  # header Unknown1, Unknown2, trailer Unknown1
 
@@ -52,6 +54,19 @@ def _imprint_of(tab, blob):
         if len(blob) >= n and hashlib.sha256(blob[:n]).hexdigest() == sha and not blob[n:].strip(b"\0"):
             return imp
     return None
+
+
+def _frame(b):
+    """length of a complete, consistent signature frame at the end of b (the verifier's own standard), else 0"""
+    n = len(b)
+    if n < 18 or b[n - 10:n - 6] != b"XapS":
+        return 0
+    t = int.from_bytes(b[n - 4:n], "little")
+    if t < 8 or t + 10 > n:
+        return 0
+    if int.from_bytes(b[n - 10 - t + 4:n - 10 - t + 8], "little") != t - 8:
+        return 0
+    return t + 10
 
 
 def _fields(s):
@@ -181,17 +196,24 @@ def predicate(prop, op, il, mres, tag):
             bad = _accept_sound(prop, out, len(out), vline, _tab(f[6]), "roundtrip")
             if bad:
                 return bad
-            if prop == "C03" and "strip" in kv:
-                k, framed = int(kv["strip"]), kv.get("framed") == "1"
-                keep = z[:len(z) - k] if framed else z
+            if prop == "C03":
+                keep = z[:len(z) - _frame(z)]
                 if out[:len(keep)] != keep:
                     return ("Relic.Props.C03.xap_payload_preserved", "input bytes outside a signature frame unchanged",
-                            "signing removed %d bytes from the end of the input that are not a signature frame (trailer look-alike)" % k)
+                            "signing removed or changed bytes of the input that are not part of a complete signature frame "
+                            "(output agrees with the input on %d of %d bytes)" % (next((i for i, (a, b) in enumerate(zip(out, keep)) if a != b), min(len(out), len(keep))), len(keep)))
     if kind in ("digest", "sign") and il.startswith("ok ") and prop == "C03" and kv.get("faithful") == "1":
-        k, framed = int(kv.get("strip", "0")), kv.get("framed") == "1"
-        if k > 0 and not framed:
-            return ("Relic.Props.C03.xap_payload_preserved", "patch range inside a signature frame",
-                    "the patch replaces the last %d bytes of the zip although they are not a signature frame (trailer look-alike)" % k)
+        # faithful framing: the zip member is the file, the directory member its tail; the patch may only replace a complete frame
+        zm = next((m for m in f[2].split(",") if m.startswith("636f6e74656e74732e7a6970:")), None)  # the first "contents.zip"
+        if zm is None:
+            return None
+        zdata = _b(zm.split(":")[2])
+        start = int(_fields(il).get("start", "-1"))
+        if start != len(zdata) - _frame(zdata) and start != len(zdata):
+            return ("Relic.Props.C03.xap_payload_preserved", "patch range = a complete signature frame (or empty)",
+                    "the patch starts at %d: it replaces %d bytes of a %d-byte file whose trailing frame has %d bytes" % (start, len(zdata) - start, len(zdata), _frame(zdata)))
+    if kind == "history" and il.startswith("err round") and not il.startswith("err round1-") and prop in ("C08", "C01", "C03"):
+        return ("Relic.Props.C08.xap_history_module", "every round succeeds", "the signer module refuses its own output: " + il)
     if kind == "history" and il.startswith("ok ") and prop in ("C08", "C01", "C03"):
         r = il.split(" ")
         if "digests=same" not in r:
@@ -199,7 +221,7 @@ def predicate(prop, op, il, mres, tag):
         if "replaced" not in r:
             return ("Relic.Props.C08.xap_resign_replaces", "replaced", "the file after the last round is not the original signed once with the last signature: " + r[3])
         if prop == "C08" and r[-1] != "t=ok":
-            return ("Relic.Props.C08.xap_f10_transform_refuses (the transform refuses relic's own output)", "t=ok", il[-40:])
+            return ("Relic.Props.C08.xap_resign_module (the transform refuses relic's own output)", "t=ok", il[-40:])
     if kind == "verify" and il.startswith("loc "):
         g = _b(f[2])
         size = len(g) if f[3] == "-" else int(f[3])
@@ -233,5 +255,5 @@ def matches_known(k, op, il, mres, tag):
     if site == "signxap.removeSignature:lookalike":
         return f[1] in ("roundtrip", "digest", "sign") and kv.get("strip", "0") != "0" and kv.get("framed") == "0" and il.startswith("ok ") and equiv(op, il, mres)
     if site.startswith("zipslicer.FindDirectory via xap re-sign"):
-        return f[1] == "history" and il.startswith("ok ") and il.endswith(" t=notfound") and il == mres
+        return f[1] == "history" and (il.startswith("err round2-transform-notfound") or (il.startswith("ok ") and il.endswith(" t=notfound")))
     return False
